@@ -56,6 +56,8 @@ FRAGS = {
     "not_req_a": {"not": {"required": ["a"]}}, "not_anyof_req": {"not": {"anyOf": [{"required": ["a"]}, {"required": ["extra"]}]}},
     "anyof_req": {"anyOf": [{"required": ["a"]}, {"required": ["b"]}]},
     "arr_contains": {"type": "array", "contains": INT}, "arr_max1": {"type": "array", "maxItems": 1},
+    "arr_contains_same": {"type": "array", "contains": INT, "minItems": 1}, "arr_contains_str": {"type": "array", "contains": STR},
+    "ty_bool": {"type": "boolean"}, "enum_bool_a": {"enum": [True, "a"]},
     "ref_oneof": {"$ref": "#/definitions/PQ"}, "minprops2": {"type": "object", "minProperties": 2}, "maxprops1": {"type": "object", "maxProperties": 1},
 }
 # string formats typify maps to native types, reconciled pairwise by the merge (ip covers ipv4 and ipv6); paired among themselves and with the
